@@ -6,7 +6,7 @@ PARALLEL = 4
 RULE = ("one (query, item) per case through the public factories: AndOrEngineFactory(ExactOrFuzzy) [t], ExactOrFuzzyEngineFactory alone [e], "
         "RegexEngineFactory [r]; items = DefaultSkimItem with --nth field ranges over 7 delimiters (incl. multi-byte and empty-matching ones) "
         "or a custom SkimItem serving raw byte ranges (clipped, overlapping, beyond the end, empty list); texts over "
-        "{a b z k s A B Z 1 é 中 😀 ｗ tab blank , ; . - ( | \\ ^ $ ' !} of length 0..90 (long ones force the horizontal scroll); queries derived from the "
+        "{a b z k s A B Z 1 é 中 😀 ｗ İ ẞ Ⱥ (upper-case letters whose lower-case form has another byte length; texts only) tab blank , ; . - ( | \\ ^ $ ' !} of length 0..90 (long ones force the horizontal scroll); queries derived from the "
         "text (subsequences, substrings, case-flipped, anchored, inverted, AND / OR compositions, regexes incl. invalid and empty-matching); "
         "x case {smart,respect,ignore} x algo {skim_v1,skim_v2,clangd} x exact-mode; canvas width 3..80, tabstop 0..8, no_hscroll / keep_right. "
         "non-trivial = query and text non-empty; distinct by sha1 of the case line")
@@ -46,7 +46,13 @@ def rtext(rng):
     n = rng.choice([1, 2, 3, 5, 8, 12, 20]) if r < 0.7 else rng.randint(25, 90)
     style = rng.random()
     pool = list(LOW) * 3 + list(UP) + OTHER if style < 0.6 else (list(LOW) * 2 + ["中", "é", "😀", "ｗ", "\t", ",", " "] if style < 0.85 else list(LOW + UP) + [",", " "])
-    return "".join(rng.choice(pool) for _ in range(n))
+    t = "".join(rng.choice(pool) for _ in range(n))
+    if rng.random() < 0.08:
+        # a letter whose lower-case form has ANOTHER UTF-8 length (İ 2->3 bytes, ẞ 3->2, Ⱥ 2->3): offsets computed on a case-folded copy
+        # of the text do not fit the text.  (None of them folds to an ASCII letter, so which items match is unaffected.)
+        i = rng.randint(0, len(t))
+        t = t[:i] + rng.choice(["İ", "ẞ", "Ⱥ"]) + t[i:]
+    return t
 
 
 def flipcase(rng, s, p=0.5):
